@@ -73,6 +73,7 @@ Lines ==
      [kind |-> "noop",    line |-> "   ",            opt |-> "", val |-> ""],
      [kind |-> "noop",    line |-> "o",              opt |-> "", val |-> ""],
      [kind |-> "noop",    line |-> "help top",       opt |-> "", val |-> ""],
+     [kind |-> "noop",    line |-> "help",           opt |-> "", val |-> ""],
      [kind |-> "noop",    line |-> "help nosuch",    opt |-> "", val |-> ""] >>
 Idx(K) == {i \in DOMAIN Lines : Lines[i].kind \in K}
 MaxLen == IF Tier = "guard" THEN 2 ELSE 3
@@ -94,7 +95,7 @@ Init == hist = <<>> /\ cfg = Default /\ pristine = "P" /\ work = "none" /\ outs 
 
 \* C10 histories: mutating commands interleaved with assignments; C09: one rejected/ignored line anywhere
 Admissible(i) == \/ Lines[i].kind \in {"command", "assign"}
-                 \/ (Lines[i].kind \in {"bad", "noop"} /\ \A k \in DOMAIN hist : Lines[hist[k]].kind \in {"command", "assign"})
+                 \/ (Lines[i].kind \in {"bad", "noop"} /\ \A k \in DOMAIN hist : Lines[hist[k]].kind \in {"command", "assign", "noop"})
 Follows(d, i) == Len(hist) < Len(d) /\ Lines[i].line = d[Len(hist) + 1] /\ \A k \in DOMAIN hist : Lines[hist[k]].line = d[k]
 Fits(i) == \/ (Len(hist) < MaxLen /\ Lines[i].line \notin OnlyDirected /\ \A k \in DOMAIN hist : Lines[hist[k]].line \notin OnlyDirected)
            \/ \E d \in Directed : Follows(d, i)
